@@ -115,6 +115,38 @@ pub trait Write: Sized {
     @start
         proof { assert(old(self).out() + seq![value] =~= old(self).out().push(value)); }
     @*/
+
+    /*@extract yrs/src/encoding/write.rs | trait Write: Sized | fn write_u16
+    @sig
+        ensures final(self).out() == old(self).out() + le16(num),
+    @start
+        proof {
+            assert(num as u8 == (num % 256) as u8 && (num >> 8) as u8 == (num / 256 % 256) as u8) by(bit_vector);
+            assert(seq![num as u8, (num >> 8) as u8] =~= le16(num));
+        }
+    @*/
+
+    /*@extract yrs/src/encoding/write.rs | trait Write: Sized | fn write_u32
+    @sig
+        ensures final(self).out() == old(self).out() + le32(num),
+    @start
+        proof {
+            assert(num as u8 == (num % 256) as u8 && (num >> 8) as u8 == (num / 256 % 256) as u8
+                && (num >> 16) as u8 == (num / 65536 % 256) as u8 && (num >> 24) as u8 == (num / 16777216 % 256) as u8) by(bit_vector);
+            assert(seq![num as u8, (num >> 8) as u8, (num >> 16) as u8, (num >> 24) as u8] =~= le32(num));
+        }
+    @*/
+
+    /*@extract yrs/src/encoding/write.rs | trait Write: Sized | fn write_u32_be
+    @sig
+        ensures final(self).out() == old(self).out() + be32(num),
+    @start
+        proof {
+            assert(num as u8 == (num % 256) as u8 && (num >> 8) as u8 == (num / 256 % 256) as u8
+                && (num >> 16) as u8 == (num / 65536 % 256) as u8 && (num >> 24) as u8 == (num / 16777216 % 256) as u8) by(bit_vector);
+            assert(seq![(num >> 24) as u8, (num >> 16) as u8, (num >> 8) as u8, num as u8] =~= be32(num));
+        }
+    @*/
 }
 
 impl Write for Vec<u8> {
@@ -137,16 +169,12 @@ pub trait Read: Sized {
     /// representation invariant of the reader (for `Cursor`: next <= buf.len())
     spec fn wf(&self) -> bool;
 
-    // FINDING (lib0::read_exact, domain restriction `len <= usize::MAX / 2`): `Cursor::read_exact` computes
-    // `self.next + len` unchecked, so a `len` above usize::MAX - next overflows (panic with overflow checks; without
-    // them the sum wraps, the bounds test passes and `&self.buf[next..next + len]` panics).  Concrete:
-    // `let mut c = Cursor::new(&[0, 0]); c.read_u8(); c.read_exact(usize::MAX)` panics instead of Err(EndOfBuffer).
+    // total for EVERY `len`: a request that does not fit is an error and leaves the reader unchanged
     /*@extract yrs/src/encoding/read.rs | trait Read: Sized | fn read_exact
     @ret r
     @sig
         requires
             old(self).wf(),
-            len <= usize::MAX / 2,
         ensures
             final(self).wf(),
             match r {
@@ -167,6 +195,69 @@ pub trait Read: Sized {
                 Ok(b) => 1 <= old(self).rest().len() && b == old(self).rest()[0] && final(self).rest() == old(self).rest().skip(1),
                 Err(_) => old(self).rest().len() == 0 && final(self).rest() == old(self).rest(),
             },
+    @*/
+
+    /*@extract yrs/src/encoding/read.rs | trait Read: Sized | fn read_u16
+    @ret r
+    @sig
+        requires
+            old(self).wf(),
+        ensures
+            final(self).wf(),
+            match r {
+                Ok(v) => 2 <= old(self).rest().len() && v == val_le16(old(self).rest()) && final(self).rest() == old(self).rest().skip(2),
+                Err(_) => old(self).rest().len() < 2 && final(self).rest() == old(self).rest(),
+            },
+    @before 1 `stmt:call Ok`
+        proof {
+            let b0 = buf[0];
+            let b1 = buf[1];
+            assert((b0 as u16 | ((b1 as u16) << 8)) == b0 as u16 + 256 * (b1 as u16)) by(bit_vector);
+        }
+    @*/
+
+    /*@extract yrs/src/encoding/read.rs | trait Read: Sized | fn read_u32
+    @ret r
+    @sig
+        requires
+            old(self).wf(),
+        ensures
+            final(self).wf(),
+            match r {
+                Ok(v) => 4 <= old(self).rest().len() && v == val_le32(old(self).rest()) && final(self).rest() == old(self).rest().skip(4),
+                Err(_) => old(self).rest().len() < 4 && final(self).rest() == old(self).rest(),
+            },
+    @before 1 `stmt:call Ok`
+        proof {
+            let b0 = buf[0];
+            let b1 = buf[1];
+            let b2 = buf[2];
+            let b3 = buf[3];
+            assert((b0 as u32 | (b1 as u32) << 8 | (b2 as u32) << 16 | (b3 as u32) << 24)
+                == b0 as u32 + 256 * (b1 as u32) + 65536 * (b2 as u32) + 16777216 * (b3 as u32)) by(bit_vector);
+        }
+    @*/
+
+    /*@extract yrs/src/encoding/read.rs | trait Read: Sized | fn read_u32_be
+    @ret r
+    @sig
+        requires
+            old(self).wf(),
+        ensures
+            final(self).wf(),
+            match r {
+                Ok(v) => 4 <= old(self).rest().len() && v == val_be32(old(self).rest()) && final(self).rest() == old(self).rest().skip(4),
+                Err(_) => old(self).rest().len() < 4 && final(self).rest() == old(self).rest(),
+            },
+    @before 1 `stmt:call Ok`
+        proof {
+            let b0 = buf[0];
+            let b1 = buf[1];
+            let b2 = buf[2];
+            let b3 = buf[3];
+            assert(((b0 as u32) << 24 | (b1 as u32) << 16 | (b2 as u32) << 8 | b3 as u32)
+                == b3 as u32 + 256 * (b2 as u32) + 65536 * (b1 as u32) + 16777216 * (b0 as u32)) by(bit_vector);
+        }
     @*/
 }
 
@@ -204,6 +295,69 @@ pub trait VarInt: Sized + Copy {
         ensures Self::dec(v.enc() + tail) == Some((v, v.enc().len()));
 }
 
+// field visibility only: the contracts of the public accessors mention the fields (cf. R10)
+/*@extract yrs/src/encoding/varint.rs | - | struct Signed | rules=SUB(from=value: T;;to=pub value: T) SUB(from=is_negative: bool;;to=pub is_negative: bool) @*/
+
+impl<T: Sized + Copy> Signed<T> {
+    /*@extract yrs/src/encoding/varint.rs | impl<T: Sized + Copy> Signed<T> | fn new
+    @ret r
+    @sig
+        ensures r == (Signed { value, is_negative }),
+    @*/
+
+    /*@extract yrs/src/encoding/varint.rs | impl<T: Sized + Copy> Signed<T> | fn is_positive
+    @ret r
+    @sig
+        ensures r == !self.is_negative,
+    @*/
+
+    /*@extract yrs/src/encoding/varint.rs | impl<T: Sized + Copy> Signed<T> | fn is_negative
+    @ret r
+    @sig
+        ensures r == self.is_negative,
+    @*/
+
+    /*@extract yrs/src/encoding/varint.rs | impl<T: Sized + Copy> Signed<T> | fn value
+    @ret r
+    @sig
+        ensures r == self.value,
+    @*/
+}
+
+pub trait SignedVarInt: Sized + Copy {
+    /// the lib0 encoding of a (value, sign flag) pair
+    spec fn enc_signed(s: &Signed<Self>) -> Seq<u8>;
+
+    /// what `read_signed` computes on an arbitrary byte string
+    spec fn dec_signed(s: Seq<u8>) -> Option<(Signed<Self>, nat)>;
+
+    /// the sign flag agrees with the value (`-0` = (0, true) included): the domain on which encode/decode round-trips.
+    /// DOMAIN RESTRICTION: `Signed::new(5, true)` is written as -5 and read back as Signed(-5, true).
+    spec fn signed_wf(s: &Signed<Self>) -> bool;
+
+    /*@extract yrs/src/encoding/varint.rs | trait SignedVarInt: Sized + Copy | fn write_signed
+    @sig
+        ensures final(w).out() == old(w).out() + Self::enc_signed(value),
+    @*/
+
+    /*@extract yrs/src/encoding/varint.rs | trait SignedVarInt: Sized + Copy | fn read_signed
+    @ret res
+    @sig
+        requires
+            old(r).wf(),
+        ensures
+            final(r).wf(),
+            read_post(old(r).rest(), final(r).rest(), res, Self::dec_signed(old(r).rest())),
+    @*/
+
+    proof fn law_dec_signed_bounded(s: Seq<u8>)
+        ensures dec_bounded(s, Self::dec_signed(s));
+
+    proof fn law_dec_enc_signed(v: Signed<Self>, tail: Seq<u8>)
+        requires Self::signed_wf(&v),
+        ensures Self::dec_signed(Self::enc_signed(&v) + tail) == Some((v, Self::enc_signed(&v).len()));
+}
+
 // ---------------------------------------------------------------------------------------------
 // extension traits (see SLICING above)
 // ---------------------------------------------------------------------------------------------
@@ -211,6 +365,11 @@ pub trait WriteExt: Write {
     /*@extract yrs/src/encoding/write.rs | trait Write: Sized | fn write_var
     @sig
         ensures final(self).out() == old(self).out() + num.enc(),
+    @*/
+
+    /*@extract yrs/src/encoding/write.rs | trait Write: Sized | fn write_var_signed
+    @sig
+        ensures final(self).out() == old(self).out() + T::enc_signed(num),
     @*/
 }
 
@@ -226,6 +385,39 @@ pub trait ReadExt: Read {
             final(self).wf(),
             read_post(old(self).rest(), final(self).rest(), res, T::dec(old(self).rest())),
     @*/
+
+    /*@extract yrs/src/encoding/read.rs | trait Read: Sized | fn read_var_signed
+    @ret res
+    @sig
+        requires
+            old(self).wf(),
+        ensures
+            final(self).wf(),
+            read_post(old(self).rest(), final(self).rest(), res, T::dec_signed(old(self).rest())),
+    @*/
+
+    /*@extract yrs/src/encoding/read.rs | trait Read: Sized | fn read_buf
+    @ret res
+    @sig
+        requires
+            old(self).wf(),
+        ensures
+            final(self).wf(),
+            match dec_buf(old(self).rest()) {
+                Some((b, k)) => res is Ok && res->Ok_0@ == b && k <= old(self).rest().len() && final(self).rest() == old(self).rest().skip(k as int),
+                None => res is Err && suffix_of(old(self).rest(), final(self).rest()),
+            },
+    @start
+        let ghost s0 = self.rest();
+    @before 1 `stmt:call read_exact`
+        proof {
+            let k = dec_u32(s0)->Some_0.1;
+            if k + len <= s0.len() {
+                assert(s0.skip(k as int).take(len as int) =~= s0.subrange(k as int, k + len));
+                assert(s0.skip(k as int).skip(len as int) =~= s0.skip(k + len));
+            }
+        }
+    @*/
 }
 
 impl<R: Read> ReadExt for R {}
@@ -236,13 +428,9 @@ impl<R: Read> ReadExt for R {}
 /*@extract yrs/src/encoding/read.rs | - | struct Cursor @*/
 
 impl<'a> Cursor<'a> {
-    // `buf@.len() <= isize::MAX` holds for every Rust slice (std: "the total size of the slice must be no larger than
-    // isize::MAX"); Verus does not know it, so it is carried by `wf` instead of being assumed
     /*@extract yrs/src/encoding/read.rs | impl<'a> Cursor<'a> | fn new
     @ret r
     @sig
-        requires
-            buf@.len() <= isize::MAX,
         ensures
             r.wf(),
             r.rest() == buf@,
@@ -265,14 +453,22 @@ impl<'a> Read for Cursor<'a> {
         self.buf@.skip(self.next as int)
     }
 
+    /// the fields of `Cursor` are pub, so `next <= buf.len()` is not enforced by the type: it is established by
+    /// `Cursor::new`, required and preserved by every `Read` method
     open spec fn wf(&self) -> bool {
-        self.next <= self.buf@.len() <= isize::MAX
+        self.next <= self.buf@.len()
     }
 
+    // (a `Some(end) if end <= self.buf.len() =>` match guard is NOT provable with this Verus: a guard that reads through
+    // `&mut self` followed by an assignment through it loses `final(self)`; /repo uses `if` since 37f6eed)
     /*@extract yrs/src/encoding/read.rs | impl<'a> Read for Cursor<'a> | fn read_exact
     @start
         let ghost s0 = self.buf@;
         let ghost n0 = self.next as int;
+        proof {
+            // vstd: the length of a slice is a usize
+            assert(spec_slice_len(self.buf) == s0.len());
+        }
     @before 1 `stmt:call Ok`
         proof {
             assert(s0.subrange(n0, n0 + len) =~= s0.skip(n0).take(len as int));
@@ -285,6 +481,10 @@ impl<'a> Read for Cursor<'a> {
     @start
         let ghost s0 = self.buf@;
         let ghost n0 = self.next as int;
+        proof {
+            // vstd: the length of a slice is a usize
+            assert(spec_slice_len(self.buf) == s0.len());
+        }
     @before 1 `stmt:call Ok`
         proof {
             assert(s0.skip(n0 + 1) =~= s0.skip(n0).skip(1));
